@@ -118,6 +118,15 @@ class FnDep:
                     cal = x.get('callee') or ''
                     if cal in ALIAS_CALLS and x['args'] and x['args'][0]['k'] in ('copy', 'move'):
                         res = self.resolve_place(x['args'][0]['pl'], _depth + 1)
+                    else:
+                        tgt = self.eng.local_target(x)
+                        if tgt is not None and tgt != self.body.path:
+                            summ = self.eng.summary(tgt)
+                            if summ is not None and summ.get('alias') is not None:
+                                k, apath = summ['alias']
+                                if k - 1 < len(x['args']) and x['args'][k - 1]['k'] in ('copy', 'move'):
+                                    r0, p0 = self.resolve_place(x['args'][k - 1]['pl'], _depth + 1)
+                                    res = (r0, (p0 + apath)[:DEPTH])
         self._alias[l] = res
         return res
 
@@ -192,7 +201,12 @@ class FnDep:
         cur |= atoms
         return len(cur) != n
 
+    def is_alias_local(self, pl):
+        return not pl.get('p') and self.base(pl['l']) != (pl['l'], ())
+
     def write_place(self, pl, atoms):
+        if self.is_alias_local(pl):
+            return False  # a view, not a storage location of its own
         root, path = self.resolve_place(pl)
         ch = self.write(root, path, atoms)
         return ch
@@ -272,9 +286,10 @@ class FnDep:
             for a in atoms:
                 out |= self._inst_atom(a, args)
             return out
-        for path, atoms in summ['ret'].items():
-            root, dp = self.resolve_place(t['dst'])
-            ch |= self.write(root, dp + path, inst(atoms))
+        if not self.is_alias_local(t['dst']):
+            for path, atoms in summ['ret'].items():
+                root, dp = self.resolve_place(t['dst'])
+                ch |= self.write(root, dp + path, inst(atoms))
         for k, d in summ['mut'].items():
             if k - 1 < len(args) and args[k - 1]['k'] in ('copy', 'move'):
                 root, ap = self.resolve_place(args[k - 1]['pl'])
@@ -343,6 +358,8 @@ class FnDep:
             return self.write_place(dst, self.read_op(rv['op']))
         if k == 'agg':
             ch = False
+            if self.is_alias_local(dst):
+                return False
             root, path = self.resolve_place(dst)
             name = rv['name'] + '::' + rv['variant'] if rv['ak'] == 'adt' else ''
             transparent = name.startswith(TRANSPARENT_ADT_PREFIX)
@@ -363,6 +380,8 @@ class FnDep:
         return False
 
     def _copy_place(self, dst, src):
+        if self.is_alias_local(dst):
+            return False
         root, path = self.resolve_place(dst)
         return self._copy_to(root, path, src)
 
@@ -418,10 +437,41 @@ class FnDep:
                 if ty.startswith('&mut ') or ty.startswith('std::vec::Vec') or True:
                     if ty.startswith('&mut '):
                         mut.setdefault(r, {}).setdefault(q, set()).update(atoms)
-        return {'ret': ret, 'mut': mut}
+        return {'ret': ret, 'mut': mut, 'alias': self.ret_alias()}
+
+    def ret_alias(self):
+        """(param, path) if the function returns (a reference to / a copy of) exactly that part of a parameter
+        on its only returning path (accessor functions)."""
+        ds = self.defs.get(0, [])
+        if len(ds) != 1 or not self.body.local_ty(0).startswith('&'):
+            return None
+        kind, bi, x = ds[0]
+        if kind != 'assign' or x['dst'].get('p'):
+            return None
+        rv = x['rv']
+        src = None
+        if rv['k'] == 'use' and rv['op']['k'] in ('copy', 'move'):
+            src = rv['op']['pl']
+        elif rv['k'] == 'ref':
+            src = rv['pl']
+        if src is None or any(p['k'] == 'index' for p in src.get('p', [])):
+            return None
+        root, path = self.resolve_place(src)
+        if self.is_param(root):
+            return (root, path)
+        return None
 
 
 class Engine:
+    def local_target(self, t):
+        resolved = t.get('resolved') if t.get('resolved_kind') == 'item' else None
+        if resolved and t.get('resolved_local') and resolved in self.prog.bodies:
+            return resolved
+        callee = t.get('callee')
+        if callee and t.get('callee_local') and callee in self.prog.bodies and not t.get('trait'):
+            return callee
+        return None
+
     def __init__(self, prog):
         self.prog = prog
         self._fd = {}
